@@ -11,11 +11,11 @@ CHECKS = {
          "cannot show absence; lengths above 3 MiB (20 MiB in the very-large group) and 1 MiB+ AEAD chunks are only sampled; SEIPDv1 multi-password false-accept is a recorded finding"),
  "C02": ("DESIGN.md §4 C02",
          "generated-input search over (signed artifact, single perturbation): artifacts made with rPGP's signing APIs, perturbations at content level, at signature-packet field level (located by an own field-layout decoder) and at verifying-key level; oracle: positive control, then every applicable verification entry point must return Err unless the artifact was rejected by the parser or is semantically identical",
-         "exploration: ~27k (thorough ~500k) cases over detached/one-pass/config data signatures (binary and text, lengths incl. 512k-1..512k+2), cleartext documents, certifications/bindings/direct-key/revocation signatures and whole zoo certificates (public and secret) x 12 signer algorithms; perturbation classes: bit flip, truncation, extension, swap, insertion, line-ending sensitive edits, other uid/subkey/signee key, type/pk-alg/hash-alg, any bit of hashed area/salt/signature value, hashed length, decoy key / same material with other creation time / other key version",
+         "exploration: ~27k (thorough ~500k) cases over detached/one-pass/config data signatures (binary and text, lengths incl. 512k-1..512k+2), cleartext documents, certifications/bindings/direct-key/revocation signatures and whole zoo certificates (public and secret) x 12 signer algorithms; one-pass messages as the builder emits them with a perturbed trailing signature / one-pass header field / literal content; text signatures at lengths 512k-2..512k+1 under every small line-ending edit (enumerated); perturbation classes: bit flip, truncation, extension, swap, insertion, line-ending sensitive edits, other uid/subkey/signee key, type/pk-alg/hash-alg, any bit of hashed area/salt/signature value, hashed length, decoy key / same material with other creation time / other key version",
          "unhashed area, left-16 and (r, n-s) malleability are not part of the property; same key material under another identity is only required to fail where the interface matches the issuer"),
  "C03": ("DESIGN.md §4 C03",
          "generated-input search + exhaustive small-scope enumeration of tampering: mutation of rPGP-built SEIPD containers (re-framed by an independent framer), oracle = stream must end in an error, zero bytes released in default SEIPDv1 mode, released bytes a prefix of the true plaintext for SEIPDv2; positive control on the unmodified container",
-         "exploration; exhaustive over every single-bit flip and truncation offset of ~35 (thorough ~65) small messages (quick: every third byte position), sampled over bit flips, truncations, appends, AEAD chunk drop/dup/swap/rotate/truncation-attack/tag surgery, CFB block surgery, all header fields x all 256 values, x consumer patterns x SEIPDv1 read modes x opener (session key, password, recipient)",
+         "exploration; exhaustive over every single-bit flip and truncation offset of ~35 (thorough ~65) small messages (quick: every third byte position), sampled over bit flips, truncations, appends, AEAD chunk drop/dup/swap/rotate/truncation-attack/tag surgery, CFB block surgery, all header fields x all 256 values, x consumer patterns x SEIPDv1 read modes x opener (session key, password, recipient); enumerated: SEIPDv2 x 3 AEAD modes x chunk 64/128 x packet stream lengths k*chunk-1..k*chunk+1 x 20 manipulations behind the last genuine chunk x 4 consumers",
          "assumes primitive forgery probabilities are unreachable; junk appended after an intact fixed-length container is only required not to yield wrong plaintext"),
  "C04": ("DESIGN.md §4 C04",
          "generated-input search with a crash oracle in isolated worker processes (2 MiB stacks, counting allocator, per-case watchdog): structure-aware hostile artifacts built by the independent reference so that they pass the cryptographic layer - PKESK v3/v6 to RSA, ECDH, X25519 and X448 recipients whose decrypted octets are enumerated, SEIPDv1/SEIPDv2/GnuPG-OCB containers valid under a known session key around hostile inner streams, SKESK/S2K/secret-key parameter octets - plus mutated fixtures and generated packet streams; oracle: every entry point returns, failures = panic (site), abort, stack overflow, failed allocation attributed to the case and last checkpoint",
@@ -27,7 +27,7 @@ CHECKS = {
          "public-key material of the structured algorithms is harvested from zoo keys (fabricated points would be rejected by the parser); Trust packet content is ignored by rPGP by design and is excluded; inputs the parser rejects are counted, not judged"),
  "C06": ("DESIGN.md §4 C06",
          "generated-input search: exhaustive strings over {CR,LF,x} (length<=L) + random strings over the canonicalization alphabet, every sign interface crossed with every applicable verify interface (pairwise oracle: own signature must verify), prefixed messages assembled by an independent framer",
-         "exploration: all 3-symbol strings up to length 6 (thorough 8) and random Sigma strings incl. buffer-edge placements; sign interfaces {detached binary/text, SignatureConfig::sign, hasher+Write chunks, builder 1..3 signers, cleartext sign/new/new_many; UserId/UserAttribute::sign(_third_party), PublicSubkey/SecretSubkey::sign, sign_primary_key_binding, SignatureConfig::sign_key} x verify interfaces {Signature::verify, DetachedSignature::verify, re-parsed binary/armored, Message::verify prefixed and one-pass, verify_nested, extracted one-pass signature as detached, cleartext verify/verify_many/after armor}; all zoo algorithms sampled",
+         "exploration: all 3-symbol strings up to length 6 (thorough 8) and random Sigma strings incl. buffer-edge placements; sign interfaces {detached binary/text, SignatureConfig::sign, hasher+Write chunks, builder 1..3 signers, cleartext sign/new/new_many; UserId/UserAttribute::sign(_third_party), PublicSubkey/SecretSubkey::sign, sign_primary_key_binding, SignatureConfig::sign_key} x verify interfaces {Signature::verify, DetachedSignature::verify, re-parsed binary/armored, Message::verify prefixed and one-pass, verify_nested, extracted one-pass signature as detached, cleartext verify/verify_many/after armor}; all zoo algorithms sampled; 1200 (thorough 20000) fresh signatures per algorithm for ECDSA/DSA/RSA/Ed448/EdDSA-legacy so that short r/s encodings occur; certificate-forming signatures made through UserId/UserAttribute::sign(_third_party), PublicSubkey/SecretSubkey::sign, sign_primary_key_binding, sign_key and checked through every verify_* and verify_bindings path after export and import",
          "only completeness (own signatures verify) is asserted here; soundness is C02; hash algorithms are restricted to those rPGP documents as strong enough for the key"),
  "C07": ("DESIGN.md §4 C07",
          "generated-input search over (key shape, RNG seed) with validity and round-trip oracles: bindings and back signatures verify, export/import equality, requested flags/preferences/features present, sign/verify and encrypt/decrypt usability incl. wrong-password refusal, independent de-framing and key-packet decoding of the export; illegal shapes must be refused",
@@ -55,7 +55,7 @@ CHECKS = {
          "the RustCrypto primitive crates are shared with rPGP and trusted; weak-hash / simple S2K that rPGP refuses by documented policy are not sent to it"),
  "C13": ("DESIGN.md §4 C13",
          "generated-input search with a differential oracle: fingerprints / key ids computed by an independent reference (MD5/SHA-1/SHA-256 over RFC framing) from key packet bodies de-framed by an own decoder, compared with every accessor path; embedded issuer / recipient fields decoded by own decoders",
-         "exploration: 17 zoo certificates x (public, secret, locked) x all key packets, 1.5k (40k) freshly generated keys of 7 shapes with random creation times, 1.5k (30k) R-wire built RSA keys v3/v4/v6 (modulus 1024..3072 bits, leading 0x01 octet); secret vs public half vs re-parsed (binary/armored); issuer fingerprint/key-id subpackets of default signatures and generated self-signatures, OPS v3 key id / v6 fingerprint, PKESK v3 key id / v6 versioned fingerprint",
+         "exploration: 17 zoo certificates x (public, secret, locked) x all key packets, 1.5k (40k) freshly generated keys of 7 shapes with random creation times, 1.5k (30k) R-wire built RSA keys v3/v4/v6 (modulus 1024..3072 bits, leading 0x01 octet); secret vs public half vs re-parsed (binary/armored); issuer fingerprint/key-id subpackets of default signatures and generated self-signatures, OPS v3 key id / v6 fingerprint, PKESK v3 key id / v6 versioned fingerprint; PKESK recipient fields of messages to 2..4 recipients, named and anonymous in every drawn order (each PKESK must carry the identity of its own recipient or the wildcard)",
          "leading-zero public material occurrences are measured and reported, not guaranteed per run; v2/v3 keys other than RSA do not exist"),
  "C14": ("DESIGN.md §4 C14",
          "exhaustive small-scope enumeration (all strings over {CR,LF,x} up to length L x all chunkings) + seeded random long strings on buffer edges, differential against a 10-line reference canonicalizer and an independently computed SHA-256 signature digest",
@@ -63,7 +63,7 @@ CHECKS = {
          "reference canon() and the RustCrypto sha2 digest are trusted; the three-class abstraction is justified by the code branching only on CR, LF, other"),
  "C15": ("DESIGN.md §4 C15",
          "exhaustive enumeration of decision tables whose expected outcomes are derived from the statement, over artifacts produced by the reference (R-crypto ESKs and containers incl. SED, GnuPG-AEAD, SKESK v5; signatures assembled with a correct digest and a valid signature value; certificates re-assembled by the own framer)",
-         "exploration with exhaustively enumerated tables: 5 ESK kinds x 4 containers x 4 option sets x {with, without aligned decoy}; 3 session-key kinds x 4 containers x 4 option sets; key version x signature version (make / accept via Signature::verify, Message::verify, verify_nested); 25 certificate variants (intact, locked, mixed-version secret and public subkey packets, signing subkey with/without back signature, swapped binding, substituted user id) judged through secret path, public path, derived public key, binary/armored/auto-detect import; OPS vs signature mismatches; all unassigned subpacket ids 0..127 x critical x v4/v6; issuer-fingerprint version",
+         "exploration with exhaustively enumerated tables: 5 ESK kinds x 4 containers x 4 option sets x {with, without aligned decoy}; 3 session-key kinds x 4 containers x 4 option sets; key version x signature version (make / accept via Signature::verify, Message::verify, verify_nested); signer version x signee version x signature version x {third-party certification, third-party key signature, subkey binding, primary key binding}; 25 certificate variants (intact, locked, mixed-version secret and public subkey packets, signing subkey with/without back signature, swapped binding, substituted user id) judged through secret path, public path, derived public key, binary/armored/auto-detect import; OPS vs signature mismatches; all unassigned subpacket ids 0..127 x critical x v4/v6; issuer-fingerprint version",
          "v4 primary with v6 subkey has no verdict fixed by the statement (only path agreement is required); OPS issuer vs signature issuer is not asserted"),
  "C16": ("DESIGN.md §4 C16",
          "grammar-based generated-input search: texts over dash/armor-boundary/whitespace/UTF-8 tokens signed through every cleartext API; oracles: reference RFC 9580 7.2 signed form, independent splitter of the emitted document (unspoofable framing), from_string round trip, re-emission stability, and a metamorphic edit rule (an edit of the text section verifies iff the reference signed form is unchanged)",
@@ -75,7 +75,7 @@ CHECKS = {
          "reference framer/de-framer written from RFC 9580 4.2; the malformed-artifact-compat feature is not enabled; non-minimal length encodings are treated as legal"),
  "C18": ("DESIGN.md §4 C18",
          "generated-input search over (recipient set, presented secrets, ordering, abort flag) with a round-trip oracle for intended secrets, an error-and-zero-bytes oracle for foreign material, and spliced messages (own framer) whose ESKs wrap different session keys for the cross-check clause",
-         "exploration: ~11k (thorough ~220k) cases; 1..4 recipients over all encryption algorithms, PKESK v3/v6, addressed/anonymous, 0..3 passwords x S2K kinds; intended key locked/unlocked with wrong key passwords first, at every position among 0..3 unrelated keys (same-algorithm decoys preferred for wildcard recipients); passwords alone / among unrelated ones (SKESK v6); negatives: non-recipient keys, wrong passwords, bit-flipped session key, session key of the wrong kind or cipher; conflicts: PKESK vs SKESK wrapping different keys with abort_early=false, RingResult marks",
+         "exploration: ~11k (thorough ~220k) cases; 1..4 recipients over all encryption algorithms, PKESK v3/v6, addressed/anonymous, 0..3 passwords x S2K kinds; intended key unprotected / fully locked / only subkey locked / only primary locked, with or without key passwords and wrong ones first, also presented with another encryption subkey in front of the addressed one, at every position among 0..3 unrelated keys (same-algorithm decoys preferred for wildcard recipients); passwords alone / among unrelated ones (SKESK v6); negatives: non-recipient keys, wrong passwords, bit-flipped session key, session key of the wrong kind or cipher; conflicts: PKESK vs SKESK wrapping different keys with abort_early=false, RingResult marks",
          "SKESK v4 wrong-password false accepts are only required to end in an error; the multi-password SEIPDv1 defect is a recorded finding"),
  "C19": ("DESIGN.md §4 C19",
          "generated-input search with a resource oracle in isolated worker processes under a counting global allocator (peak live bytes, bytes allocated in total, number and largest of requests; single requests above 1 GiB refused): (a) metamorphic declared-size inflation of generated and harvested packets, (b) doubling families with a growth-ratio oracle, (c) two-size streaming comparison of built-and-read-back messages, (d) exhaustive enumeration of Argon2 (t,p) x listed m and of every iterated-S2K count octet against the documented ceiling",
